@@ -212,6 +212,12 @@ class _Canon(ast.NodeTransformer):
     def visit_For(self, n):
         n = self.generic_visit(n)
         it = n.iter
+        # product(A, repeat=k) with a literal k is product(A, A, .. k times)
+        if isinstance(it, ast.Call) and self._itertools(it.func) == "product" and len(it.args) == 1 and len(it.keywords) == 1 and it.keywords[0].arg == "repeat" \
+                and isinstance(it.keywords[0].value, ast.Constant) and type(it.keywords[0].value.value) is int and 2 <= it.keywords[0].value.value <= 4 \
+                and not isinstance(it.args[0], ast.Starred):
+            import copy as _c
+            it = ast.copy_location(ast.Call(func=it.func, args=[_c.deepcopy(it.args[0]) for _ in range(it.keywords[0].value.value)], keywords=[]), it)
         if isinstance(it, ast.Call) and self._itertools(it.func) == "product" and len(it.args) >= 2 and not it.keywords and not n.orelse \
                 and isinstance(n.target, (ast.Tuple, ast.List)) and len(n.target.elts) == len(it.args) \
                 and not any(isinstance(a, ast.Starred) for a in it.args) and not any(isinstance(e, ast.Starred) for e in n.target.elts):
